@@ -12,6 +12,8 @@
 (*   Revert{b} / Apply{b}           the store saw RevertBlock / ApplyBlock *)
 (*   Done{tip}                      AddBlocks returned                     *)
 (*   Obs{p1,p2,eph,full,valid,mine,alias}  PoolTransactions +              *)
+(*                                  (full: the harness' own sum, logged    *)
+(*                                  for the audits; the spec recomputes it)*)
 (*                                  V2PoolTransactions reported, with the  *)
 (*                                  harness' concrete verdicts             *)
 (*   AddSet{kind,basis,set,r,alias} submission and its result              *)
@@ -24,9 +26,9 @@ EXTENDS Pool, Json, IOUtils
 
 ScJ == JsonDeserialize(IOEnv.POOLSC)
 ToSet(s) == {s[i] : i \in 1..Len(s)}
-FixTx(x) == [ins |-> ToSet(x.ins), refs |-> ToSet(x.refs), outs |-> ToSet(x.outs), kind |-> x.kind]
+FixTx(x) == [ins |-> ToSet(x.ins), refs |-> ToSet(x.refs), outs |-> ToSet(x.outs), kind |-> x.kind, w |-> x.w]
 FixSc(c) ==
-    [n |-> c.n, v1ok |-> c.v1ok, parent |-> c.parent, height |-> c.height, body |-> c.body,
+    [n |-> c.n, v1ok |-> c.v1ok, maxpool |-> c.maxpool, parent |-> c.parent, height |-> c.height, body |-> c.body,
      creates |-> [b \in 1..c.n |-> ToSet(c.creates[b])],
      spends  |-> [b \in 1..c.n |-> ToSet(c.spends[b])],
      ntx |-> c.ntx, tx |-> [t \in 1..c.ntx |-> FixTx(c.tx[t])]]
@@ -69,10 +71,10 @@ EphSeq(s)  == [i \in 1..Len(s) |-> ToSet(s[i])]
 TObs ==
     /\ Step("Obs") /\ Idle
     /\ LET p1 == Ev.p1 p2 == Ev.p2 IN
-       /\ IF stale \/ Ev.full
-            THEN LET K == IF Ev.full THEN Closure(mustKeep \cap (SeqSet(p1) \cup SeqSet(p2)), utxo) ELSE mustKeep IN
+       /\ IF stale \/ Full       \* Full: the spec's own sum over the pooled transactions, not the harness' flag
+            THEN LET K == IF Full THEN Closure(mustKeep \cap (SeqSet(p1) \cup SeqSet(p2)), utxo) ELSE mustKeep IN
                  /\ mustKeep' = K
-                 /\ kept0' = IF Ev.full THEN Closure(kept0 \cap (SeqSet(p1) \cup SeqSet(p2)), utxo) ELSE kept0
+                 /\ kept0' = IF Full THEN Closure(kept0 \cap (SeqSet(p1) \cup SeqSet(p2)), utxo) ELSE kept0
                  /\ AllowedPool(p1, p2, K)
             ELSE /\ p1 = pool1 /\ p2 = pool2 /\ mustKeep' = mustKeep /\ kept0' = kept0
        /\ pool1' = p1 /\ pool2' = p2
